@@ -32,7 +32,7 @@ LONG_SIZES = {'quick': [4095, 4096, 4097, 8191, 8192, 8193], 'thorough': list(ra
 
 def describe(tier):
     return dict(line_alphabet=L, max_lines=BOUNDS[tier]['lines'], deep_sub_alphabet=LDEEP, deep_lines=BOUNDS[tier]['deep'], subprocess_max_lines=BOUNDS[tier]['sub_lines'],
-                renderers=list(RENDERERS), forms=['str', 'list+nl', 'list-nl', 'StringIO', 'file via cli.convert_file', 'cli.main', 'cli.main pairs', 'python -m mistletoe'],
+                renderers=list(RENDERERS), forms=['sequence Html/Ast/Markdown/Ast/LaTeX/Html without resets', 'str', 'list+nl', 'list-nl', 'StringIO', 'file via cli.convert_file', 'cli.main', 'cli.main pairs', 'python -m mistletoe'],
                 pair_texts=PAIR_TEXTS, long_inputs=dict(patterns=LONG_PATTERNS, sizes=LONG_SIZES[tier]))
 
 
@@ -160,10 +160,42 @@ def check_text(r, text, cross=None):
     return outs
 
 
+SEQUENCE = ['Html', 'Ast', 'Markdown', 'Ast', 'LaTeX', 'Html']
+
+
+def check_sequence(r, text, outs):
+    """the same text supplied in different forms to renderers used one after the other in one process, without any reset
+    in between (what a program that converts one document to several formats does): every result must equal the one the
+    same renderer gives from pristine state"""
+    from mistletoe import Document
+    if not outs:
+        return
+    core.fresh()
+    forms = [('str', lambda: text), ('list+nl', lambda: list_form(text, True)), ('StringIO', lambda: io.StringIO(text))]
+    for i, name in enumerate(SEQUENCE):
+        if name not in outs:
+            continue
+        fname, mk = forms[i % len(forms)]
+        r.transitions += 1
+        r.validated += 1
+        try:
+            with configs.renderer_class(name)() as rend:
+                got = rend.render(Document(mk())).encode()
+        except Exception as e:
+            r.fail(dict(text=text, renderer=name, form='sequence'), 'form-raises-in-sequence:' + core.exc_sig(e), repr(e))
+            return
+        if got != outs[name]:
+            r.fail(dict(text=text, renderer=name, form='sequence'), 'form-differs-in-sequence:%s:%s' % (name, fname),
+                   expected=outs[name].decode(), observed=got.decode('utf-8', 'replace'))
+            return
+    r.outcome('same:sequence')
+
+
 def run_lines(r, ws):
     t0 = '\n'.join(ws)
     o0 = check_text(r, t0)
     o1 = check_text(r, t0 + '\n')
+    check_sequence(r, t0 + '\n', o1)
     if ws[-1] != '' and o0 is not None and o1 is not None:
         for name in o0:
             if name in o1:
@@ -188,6 +220,18 @@ def _replay(case):
         return None if a == b else dict(sig='final-newline-changes-output', expected=b, observed=a)
     if form == 'pair':
         return check_pair(name, case['text'], case['text2'])
+    if form == 'sequence':
+        rr = core.Result()
+        outs = {}
+        for nm in RENDERERS:
+            try:
+                outs[nm] = render(nm, text).encode()
+            except Exception:
+                pass
+        check_sequence(rr, text, outs)
+        for (kf, sig), (n, fl) in rr.failures.items():
+            return fl[0]
+        return None
     if form == 'subprocess':
         return check_subprocess(name, [text])
     base = render(name, text).encode()
